@@ -1,12 +1,201 @@
 import Driver.Util
-/-! Driver section for C01 (stub until the model is online). -/
+import RxnModel.Model.Pipeline
+import RxnModel.Model.KeySpace
+/-!
+Driver section for C01 (trace validation of the mini-cluster against `Rxn.Pipeline.step`).
+Header: `M C01 <workers> <keyGroups> <splits> <batch> <readBatch> <keys> <rot>`.
+Every input line is `<op …> ## <events the implementation recorded during the op> [result token]`.
+Each event token is replayed as one action of `Rxn.Pipeline.step` (the function the theorems of `Props/C01.lean`
+are about); the action must be enabled and the property-level observations must agree:
+  `r:sp:i:k`            → `read sp`            (index = model cursor, key = input)
+  `d:o:sp:i:k|st`       → `deliver (assign sp) o`  (head of the channel is exactly this record; `st` = model key state)
+  `t:id`                → `start`              (id = model's next checkpoint id)
+  `b:r:id:sp=c,…`       → `barrier r`          (cursors = model cursors of the runner's splits)
+  `c:o:id`              → `opCkpt o`           (every channel into `o` has the barrier at its head)
+  `p:id`                → `publish`            (a completed checkpoint with this id is being written)
+  `k:w`                 → `kill w`
+  `R:n:ck:c0.c1…:j|w`   → `restart n job`      (ck = newest published id, cursors = restored cursors)
+The answer echoes the line when everything agrees; the first disagreement is answered with what the model says.
+The handler is the reference handler (state = list of applied `(split,index)`), routing is the C05 model
+(`KeySpace.rangeIndex` over murmur3 of the key bytes), split assignment is the scripted splitter's `sp % n`.
+-/
 namespace Driver.C01
-open Rxn Driver
+open Rxn Driver Rxn.Pipeline
 
-def step (st : Unit) : List String → Unit × String
-  | _ => (st, "bad-op")
+abbrev Sg := List (Nat × Nat)
+
+structure DSt where
+  cfg : Cfg Sg
+  s : State Sg
+  nsplits : Nat
+  nkeys : Nat
+  fed : Array Nat          -- records made available so far, per split
+  ok : Bool := true
+
+def keyBytes (k : Nat) : Bytes := (0x6b : UInt8) :: (toString k).toList.map (fun c => UInt8.ofNat c.toNat)
+
+def showLog (l : Sg) : String :=
+  if l.isEmpty then "-" else joinWith "," (l.map fun p => s!"{p.1}.{p.2}")
+
+/-- contents of the splits over the whole case (feeds and the final probe), so that `cfg.key` is a fixed function -/
+partial def scanInput (lines : Array String) (i : Nat) (nkeys : Nat) (acc : Array (Array Nat)) : Array (Array Nat) :=
+  if h : i < lines.size then
+    let l := lines[i]
+    if l.startsWith "M " then acc
+    else
+      match words l with
+      | "feed" :: sp :: ks :: _ =>
+        let sp := natOr sp
+        let add := (ks.splitOn ",").map natOr
+        scanInput lines (i + 1) nkeys (acc.modify sp fun a => a ++ add.toArray)
+      | "probe" :: _ =>
+        let acc := (List.range nkeys).foldl (fun (acc : Array (Array Nat)) k => acc.modify (k % acc.size) fun a => a.push k) acc
+        scanInput lines (i + 1) nkeys acc
+      | _ => scanInput lines (i + 1) nkeys acc
+  else acc
+
+def mkCfg (kgc nkeys : Nat) (input : Array (Array Nat)) : Cfg Sg :=
+  let tbl : Array (Array Nat) := ((List.range 9).map fun n =>
+    ((List.range (nkeys + 1)).map fun k => if n = 0 then 0 else KeySpace.rangeIndex kgc n (keyBytes k)).toArray).toArray
+  { key := fun sp i => (input.getD sp #[]).getD i 0
+    route := fun n k => (tbl.getD n #[]).getD k 0
+    assign := fun n sp => if n = 0 then 0 else sp % n
+    init := []
+    h := fun s e => s ++ [(e.split, e.idx)] }
+
+def quiescentB (d : DSt) : Bool :=
+  (List.range d.nsplits).all (fun sp => d.s.cursor sp == d.fed.getD sp 0) &&
+  (List.range d.s.n).all fun r => (List.range d.s.n).all fun o =>
+    (d.s.queue r o).all fun it => match it with | .ev _ => false | .bar => true
+
+/-- `no_loss_no_dup` evaluated on the (validated) model state -/
+def exactlyOnceB (d : DSt) : Bool :=
+  (List.range d.nsplits).all fun sp =>
+    (List.range (d.s.cursor sp + 2)).all fun i =>
+      let k := d.cfg.key sp i
+      let owner := d.cfg.route d.s.n k
+      let cnt := (d.s.log owner k).count (sp, i)
+      let others := (List.range d.s.n).all fun o => (List.range (d.nkeys + 1)).all fun k' =>
+        (o == owner && k' == k) || !(d.s.log o k').contains (sp, i)
+      cnt == (if i < d.s.cursor sp then 1 else 0) && others
+
+def act (d : DSt) (a : Act) : Option (DSt × List (Given Sg)) :=
+  match step d.cfg d.s a with
+  | some (s', g) => some ({ d with s := s' }, g)
+  | none => none
+
+def cutString (d : DSt) (r : Nat) : String :=
+  let l := ((List.range d.nsplits).filter fun sp => d.cfg.assign d.s.n sp == r).map fun sp => s!"{sp}={d.s.cursor sp}"
+  if l.isEmpty then "-" else joinWith "," l
+
+/-- replay one event token; answer = the token the model agrees with -/
+def applyTok (d : DSt) (tok : String) : DSt × String :=
+  let bad (why : String) : DSt × String := ({ d with ok := false }, s!"DISABLED({tok}:{why})")
+  if tok.startsWith "z" then (d, tok) else
+  match tok.splitOn "|" with
+  | [hd, given] =>
+    match hd.splitOn ":" with
+    | ["d", o, sp, i, k] =>
+      let o := natOr o; let sp := natOr sp; let i := natOr i; let k := natOr k
+      let r := d.cfg.assign d.s.n sp
+      match act d (.deliver r o) with
+      | some (d', [g]) =>
+        if g.e = ⟨k, sp, i⟩ then
+          if showLog g.state = given then (d', tok) else (d', s!"{hd}|{showLog g.state}")
+        else bad s!"head-is-{g.e.split}.{g.e.idx}"
+      | _ => bad "channel-head-is-not-a-record"
+    | _ => bad "unknown"
+  | [t] =>
+    match t.splitOn ":" with
+    | ["r", sp, i, k] =>
+      let sp := natOr sp
+      if d.s.cursor sp ≠ natOr i then bad s!"cursor-is-{d.s.cursor sp}"
+      else if d.cfg.key sp (natOr i) ≠ natOr k then bad "key"
+      else match act d (.read sp) with
+        | some (d', _) => (d', tok)
+        | none => bad "not-deployed"
+    | ["t", id] =>
+      if d.s.nextId ≠ natOr id then bad s!"next-id-is-{d.s.nextId}"
+      else match act d .start with
+        | some (d', _) => (d', tok)
+        | none => bad "a-checkpoint-is-pending"
+    | ["b", r, id, cs] =>
+      let r := natOr r
+      match d.s.pending with
+      | some p =>
+        if p.id ≠ natOr id then bad s!"pending-id-is-{p.id}"
+        else match act d (.barrier r) with
+          | some (d', _) =>
+            let want := cutString d r
+            if want = cs then (d', tok) else (d', s!"b:{r}:{id}:{want}")
+          | none => bad "runner-already-acknowledged"
+      | none => bad "no-pending-checkpoint"
+    | ["c", o, id] =>
+      match d.s.pending with
+      | some p =>
+        if p.id ≠ natOr id then bad s!"pending-id-is-{p.id}"
+        else match act d (.opCkpt (natOr o)) with
+          | some (d', _) => (d', tok)
+          | none => bad "not-aligned"
+      | none => bad "no-pending-checkpoint"
+    | ["p", id] =>
+      match d.s.writing.findIdx? (fun c => c.id == natOr id) with
+      | some i =>
+        match act d (.publish i) with
+        | some (d', _) => (d', tok)
+        | none => bad "publish"
+      | none => bad "no-complete-checkpoint-with-this-id"
+    | ["k", w] =>
+      match act d (.kill (natOr w)) with
+      | some (d', _) => (d', tok)
+      | none => bad "kill"
+    | ["R", n, _ck, _cs, j] =>
+      let ck := match newest d.s.published with
+        | some c => toString c.id
+        | none => "none"
+      match act d (.restart (natOr n) (j == "j")) with
+      | some (d', _) =>
+        let cs := joinWith "." ((List.range d.nsplits).map fun sp => toString (d'.s.cursor sp))
+        (d', s!"R:{n}:{ck}:{cs}:{j}")
+      | none => bad "restart"
+    | ["Q"] => (d, if quiescentB d then "Q" else "NQ")
+    | ["NQ"] => (d, if quiescentB d then "Q" else "NQ")
+    | _ =>
+      if t == "-" || t == "none" || t == "NOTRUNNING" || t == "nosuch" || t == "dead" || t == "kj" || t.startsWith "z" then (d, t)
+      else bad "no-such-step"
+  | _ => bad "unknown"
+
+def applyToks (d : DSt) : List String → List String → DSt × List String
+  | [], acc => (d, acc.reverse)
+  | t :: ts, acc =>
+    if d.ok then
+      let (d', o) := applyTok d t
+      applyToks d' ts (o :: acc)
+    else (d, acc.reverse)
+
+def splitAt2 (ws : List String) : List String × List String :=
+  (ws.takeWhile (· ≠ "##"), (ws.dropWhile (· ≠ "##")).drop 1)
+
+def step' (d : DSt) (ws : List String) : DSt × String :=
+  if !d.ok then (d, "desync") else
+  let (op, toks) := splitAt2 ws
+  let d := match op with
+    | "feed" :: sp :: ks :: _ => { d with fed := d.fed.modify (natOr sp) (· + (ks.splitOn ",").length) }
+    | "probe" :: _ => (List.range d.nkeys).foldl (fun (d : DSt) k => { d with fed := d.fed.modify (k % d.nsplits) (· + 1) }) d
+    | _ => d
+  match op with
+  | ["end"] => (d, if !quiescentB d || exactlyOnceB d then "ok" else "exactly-once-violated")
+  | _ =>
+    let (d', out) := applyToks d toks []
+    (d', joinWith " " out)
 
 def handle (lines : Array String) (i : Nat) (out : Array String) : Nat × Array String :=
-  runLines step () lines i out
+  let hdr := words (lines.getD (i - 1) "")
+  let kgc := natOr (hdr.getD 3 "8")
+  let nsplits := max 1 (natOr (hdr.getD 4 "1"))
+  let nkeys := natOr (hdr.getD 7 "1")
+  let input := scanInput lines i nkeys (Array.replicate nsplits #[])
+  let cfg := mkCfg (max kgc 1) nkeys input
+  runLines step' { cfg := cfg, s := init cfg, nsplits := nsplits, nkeys := nkeys, fed := Array.replicate nsplits 0 } lines i out
 
 end Driver.C01
